@@ -94,7 +94,7 @@ func init() {
 				truth: func(c c02Case) []string { return []string{"key:" + a} }})
 		}
 	}
-	for _, cn := range []string{"leaf1", "leaf2"} {
+	for _, cn := range []string{"leaf1", "leaf2", "leaf-direct"} {
 		cn := cn
 		c02Register(c02Kind{name: "honest-cert:" + cn, honest: true,
 			file: func(b *c02Builder) hx.WMetaFile {
@@ -103,7 +103,7 @@ func init() {
 				return f
 			},
 			truth: func(c c02Case) []string {
-				if certChainOK(c) {
+				if certChainOK(c) || (cn == "leaf-direct" && !c.NoRoots) {
 					return []string{"cert:" + cn}
 				}
 				return nil
@@ -221,6 +221,7 @@ func c02PKI() hx.PKISpec {
 		leaf("leaf-foreign", "foreignroot", "valid", "acme"),
 		{Name: "leaf-mismatch", Issuer: "inter", Validity: "valid", KeyKind: "p256", CN: "leaf-mismatch", Orgs: []string{"acme", "evil"}, DNS: []string{"b.example", "a.example"}},
 		leaf("leaf-selfsigned", "", "valid", "acme"),
+		leaf("leaf-direct", "root", "valid", "acme"), // issued by the root itself: needs no intermediate
 		// a foreign CA that calls itself like the genuine intermediate, and a certificate of it that
 		// repeats the serial number of a genuine certificate (issuer name + serial identify nothing)
 		{Name: "twinca", IsCA: true, Validity: "valid", KeyKind: "p256", CN: "ca-inter"},
@@ -536,7 +537,7 @@ func c02Exhaustive(t *testing.T) {
 	// a reduced alphabet keeps the enumeration affordable; every kind family is represented
 	alpha := []string{
 		"honest-key:" + c02A1 + ":legacy", "honest-key:" + c02A2 + ":dsse", "honest-key:" + c02A3 + ":legacy",
-		"honest-cert:leaf1", "honest-cert:leaf2",
+		"honest-cert:leaf1", "honest-cert:leaf2", "honest-cert:leaf-direct",
 		"tampered:" + c02A1, "unsigned", "unauthorised-key", "other-step-key", "listed-not-defined",
 		"bad-cert:leaf-expired", "bad-cert:leaf-foreign", "bad-cert:leaf-mismatch", "bad-cert:leaf-twin",
 		"dup-key:" + c02A1, "dup-cert:leaf1", "dup-upper:" + c02A2, "multisig:" + c02A2 + "+" + c02A1, "forged-id:" + c02A3, "junk:garbage",
